@@ -131,7 +131,10 @@ func (streamSelf *StreamDef[T]) Append(item ...T) *StreamDef[T] {
 func (streamSelf *StreamDef[T]) Remove(index int) *StreamDef[T] {
 	var result StreamDef[T]
 	if index >= 0 && index < streamSelf.Len() {
-		result = append((*streamSelf)[:index], (*streamSelf)[index+1:]...)
+		// Build the result in a fresh slice: appending in place would overwrite the receiver's backing array
+		result = make(StreamDef[T], 0, streamSelf.Len()-1)
+		result = append(result, (*streamSelf)[:index]...)
+		result = append(result, (*streamSelf)[index+1:]...)
 	} else {
 		return streamSelf
 	}
